@@ -81,6 +81,8 @@ func init() {
 
 func runC16(w *World, r *Report) {
 	r.NotDecided = []string{"the full call-sequence state machine against a reference model", "at-most-once under concurrent duplicates beyond C17 (atomic removal) and C03 (index)", "expiry timing of challenges"}
+	// a waiting list holds what was listed for that address: a list built from another address's list discloses its contracts
+	listUpdateIterationLocal(w, r, "list-update-is-iteration-local")
 	type g struct {
 		label string
 		edges gspec
